@@ -9,6 +9,18 @@ CHECKS = {
    text="Whole-program static lock-order proof: every (site, live guard, acquired class) pair in every body reachable in each executable respects the ranks read from LOCK_ORDER_*, or is serialised by the SAITO gate per the property's escape clause. Held sets (rustc MaybeInitializedPlaces) and acquisitions (all paths, resolved calls/awaits, class hierarchy for dyn, closure/future creation) are over-approximated, so no report means no inversion in any schedule.",
    note="Trusted: rustc type check/MIR/Instance resolution/dataflow, the driver's MIR serialisation, the tokio acquisition-API and spawn tables. Assumes guards are not smuggled through dyn Any/raw pointers/fn pointers and external crates do not call back into workspace code holding workspace locks.",
    technique="static analysis: MIR dataflow (live lock guards) + interprocedural lock-acquisition summaries over the resolved call graph"),
+ "C06": dict(level="other",
+   text="Decides the structural part of the identity binding on every path: each accepting path of Block::validate (outside the SPV-mode and ghost exits) passes the equal edge of merkle_root vs the root recomputed from the carried transactions and the true edge of the creator-signature check; the signed bytes read merkle_root/creator/id/timestamp/previous_block_hash, pre_hash = hash(signed bytes), hash = hash(previous_block_hash ++ pre_hash); verify_block forwards a fetched block only on the equal edges of the advertised id/hash comparisons. Does not decide collision resistance of the merkle construction.",
+   note=TRUST,
+   technique="static analysis: must-pass-through (edge-deletion reachability with boolean path sensitivity) over the MIR CFG, operand provenance by expression chasing"),
+ "C08": dict(level="other",
+   text="Decides that the routing-work requirement and the golden-ticket check are gates on every accepting path of Block::validate for a block with a known parent, that the requirement is computed from (parent burn fee, own timestamp, parent timestamp, heartbeat), that the ticket is re-targeted at the parent hash and checked against the parent difficulty, and that a failed routing-path / hop-signature check rejects a transaction. Does not decide monotonicity or bounds of the floating-point work function nor payout eligibility and amounts (value level).",
+   note=TRUST,
+   technique="static analysis: must-pass-through over the MIR CFG with operand-provenance predicates; verdict gating"),
+ "C13": dict(level="other",
+   text="Decides one necessary clause: the rebroadcast set is committed and compared - in consensus mode every accepting path of Block::validate passes cv.rebroadcast_hash == self.rebroadcast_hash and cv.total_rebroadcast_slips == self.total_rebroadcast_slips, and Block::generate accumulates both header values only under the ATR arm of the match on transaction type. Does not decide which outputs are eligible, ownership, amounts, or expiry across histories.",
+   note=TRUST,
+   technique="static analysis: must-pass-through over the MIR CFG; control-dependence of field writes on an enum arm"),
  "C01": dict(level="other",
    text="Decides the structural clause 'validation gates acceptance' on every path: each verdict (Transaction/Slip/Block/Blockchain::validate, signature and golden-ticket checks) computed on the acceptance chain, when it rejects, reaches no accept outcome of its consumer; nothing inserts into the pool around validation; Transaction::validate's accept paths for non-privileged types pass the signature check. A necessary condition of every clause of C01 - not the behaviour: it does not decide that the verdict functions compute the right answer.",
    note=TRUST,
